@@ -183,7 +183,8 @@ func verifC21RawReadAll(r io.Reader) ([]byte, error) {
 	}
 	b, ok := r.(*verifC21RawBody)
 	if !ok {
-		panic("verifC21RawReadAll: unexpected reader")
+		verifUnmodelled("io.ReadAll over a reader the model does not know")
+		return nil, nil
 	}
 	d := b.data
 	if limit >= 0 && int64(len(d)) > limit {
@@ -513,7 +514,8 @@ func verifC21ReadAll(r io.Reader) ([]byte, error) {
 	}
 	src, ok := r.(*verifC21Body)
 	if !ok {
-		panic("verifC21ReadAll: unexpected reader")
+		verifUnmodelled("io.ReadAll over a reader the model does not know")
+		return nil, nil
 	}
 	verifC21RawAsked = limit
 	n := src.avail
